@@ -34,6 +34,9 @@ CHECKS["C07"] = ("fault_enumeration", "exhaustive size sweep across every flush 
 CHECKS["C10"] = ("exploration", "exhaustive float32 sweep (thorough) / exponent x mantissa grids and bound-neighbourhood literal enumeration against strconv shortest digits + own ECMA-262 layout and math/big range arithmetic",
   "Formatting: every float32 bit pattern (thorough) or all exponents x mantissa patterns (quick), float64 grid over all 2047 exponents plus ulp-neighbourhoods of all powers of ten and layout switches: AppendFloat equals the ECMA-262 layout of the shortest round-trip digits and parses back bit-identically; same through Marshal/Token paths; int64/uint64 boundaries printed exactly. Parsing: every integer within +-R of every width bound in several spellings, 19-22 digit strings, float literals on float32 midpoints, into all 13 numeric Go types bare/string-tagged/StringifyNumbers/map key; Token.Int/Uint/Float classification and saturation.",
   "Trusted: strconv.ParseFloat/AppendFloat(shortest) and math/big.", "2/C10")
+CHECKS["C04"] = ("exploration", "bounded-exhaustive enumeration of a reflect-built type universe x value domains x option sets against the round-trip law",
+  "Every type of the universe (depth 1 quick / 2 thorough) x every value of its domain x 18 symmetric option sets (default, StringifyNumbers, nil-as-null, OmitZeroStructFields, whitespace/escape, DefaultOptionsV1, each v1 option singly); every format tag on its type over boundary-dense duration/time/bytes domains; 65/130-field structs; float32: all 2^32 bit patterns (thorough). Unmarshal accepts Marshal(v), re-marshal reproduces the bytes (fixed point after one round with omit options), decoded value equals v modulo nil/empty with exact float bits and time.Equal (+ offset where the format carries it).",
+  "Trusted: Go reflection, time and math as oracles; the law itself needs no reference model.", "2/C04")
 NOT_YET = {}
 def main():
     props=[json.loads(l)["id"] for l in open("properties.jsonl")]
